@@ -1028,6 +1028,24 @@ func scenC04(g *Gen, dir string) ([]*Op, func(e *Env, i int, op *Op, obs []strin
 		}
 		g.count("tamper:envelope-duplicate-member-forgery")
 	}
+	otherKind := false
+	if gsAll := sortedGroups(groups); len(gsAll) >= 2 && !subset && !held && !forge && !bigBlob && len(v.Groups) == 0 && len(v.Objects) == 0 && r.Chance(1, 6) {
+		// after the edit, every group but the first loses its signature and gets one in the *other*
+		// signature format from somebody the verifier knows nothing about (it holds key material for
+		// the first format only): the first group's genuine signature must not carry the others
+		u := getUniverse()
+		otherKind = true
+		for k, gid := range gsAll[1:] {
+			s2 := SOpts{PGP: -1, Groups: []uint32{gid}, T: TOpt{Kind: "det"}}
+			if s.PGP >= 0 {
+				s2.DSSE = []int{100 + r.Intn(len(u.DSSE))}
+			} else {
+				s2.PGP, s2.NoSalt = r.Intn(len(u.PGP)), true
+			}
+			ops = append(ops, &Op{Kind: "del", Sel: Sel{Kind: "id", N: int64(nobj + 2 + k)}, T: TOpt{Kind: "det"}}, &Op{Kind: "sign", S: s2})
+		}
+		g.count("tamper:other-groups-re-signed-in-the-other-format-by-a-stranger")
+	}
 	ops = append(ops, factsOp())
 	ver1 := len(ops)
 	ops = append(ops, &Op{Kind: "verify", V: v})
@@ -1052,6 +1070,9 @@ func scenC04(g *Gen, dir string) ([]*Op, func(e *Env, i int, op *Op, obs []strin
 	}
 	if bigBlob && !forge {
 		mode = 20
+	}
+	if otherKind {
+		mode = 20 // a bit inside the content of an object
 	}
 	var orig protView
 	var verifiedIDs []uint32
@@ -1329,7 +1350,16 @@ func fillPatch(g *Gen, op *Op, b []byte) {
 		op.N = 1
 		g.count("tamper:object-content-bit")
 	case mode < 2: // header bit
-		op.Sites = []PatchSite{flip(r.Intn(128))}
+		off := r.Intn(128)
+		if r.Chance(2, 3) {
+			// a byte of the launch script or of the image ID (the fields signatures protect)
+			off = r.Intn(48)
+			if off >= 32 {
+				off += 16
+			}
+			g.count("tamper:protected-header-field-bit")
+		}
+		op.Sites = []PatchSite{flip(off)}
 		g.count("tamper:header-bit")
 	case mode < 5: // descriptor table bit
 		op.Sites = []PatchSite{flip(4096 + r.Intn(tabEnd-4096))}
